@@ -117,6 +117,7 @@ const (
 	D2        // first element: @x @y + xmlns:p="u"; second element in namespace u
 	D3        // nested re-declaration / override / default namespace
 	D4        // xml:lang placements
+	D5        // only the first element declares (two prefixes); every other element merely inherits (the third also carries @x)
 	NDeco
 )
 
@@ -180,6 +181,14 @@ func Instantiate(f []*Tm, deco int) *Doc {
 			case 3:
 				e.Declare("q", URI_U)
 				e.Add(ANS(URI_U, "q", "y", "2"))
+			}
+		case D5:
+			if no == 1 {
+				e.Declare("p", URI_U)
+				e.Declare("q", URI_V)
+			}
+			if no == 3 {
+				e.Add(A("x", "3")) // an attribute on an element that only inherits its namespaces
 			}
 		case D4:
 			switch no {
